@@ -9,7 +9,13 @@ from sa import localnames
 from sa.core import Repo
 # (1) local-name signatures of every function (written first: the instance table below is computed with it in place)
 localnames._ref = {}
+from sa import normalise
+normalise._ref_funcs = {}
 repo = Repo("/repo")
+funcs = {rel: sorted(m.funcs) for rel, m in repo.modules.items()}
+os.makedirs(os.path.join(HERE, "reference"), exist_ok=True)
+json.dump(funcs, open(os.path.join(HERE, "reference", "functions.json"), "w"), indent=0, sort_keys=True)
+normalise._ref_funcs = None
 loc = {}
 for rel, m in repo.modules.items():
     if "externals/cloudpickle" in rel:
